@@ -70,6 +70,10 @@ def valid_spec(draw, sm, want_mc=None, want_mixed=None, explicit=False, req_form
             # port names that contain one another: make the multi-client port the longest one
             longest = max(len(c[0]) for c in cands)
             cands = [c for c in cands if len(c[0]) == longest]
+        if 'sub_events' in sm.get('features', []):
+            # the configured events are the ones with the longest names (their substrings are decoys)
+            longest = max(len(c[1]['name']) + len(c[3]['name']) for c in cands)
+            cands = [c for c in cands if len(c[1]['name']) + len(c[3]['name']) == longest]
         port, claim, enum, release = draw(st.sampled_from(cands))
         grant = draw(st.sampled_from(enum['elem']['fields']))
         mc = {'port': port, 'claim': claim['name'], 'grant': [grant], 'release': release['name']}
